@@ -3,5 +3,5 @@ Require Import IP.Base.Bytes IP.DM.Value IP.Xform.Transform IP.Xform.WalkT.
 Require Extraction.
 Require Import ExtrOcamlBasic.
 Extraction Language OCaml.
-Extraction "model.ml" focused_transform xupdate xexpand raw erase inject root_accepts canon
+Extraction "model.ml" focused_transform focused_transform_segs render_path xupdate xexpand raw erase inject root_accepts canon
   q_pinned q_fixed sq_old sq_new wt inline link_free sort_maps rfc_ltb dm_eqb f64_is_nan has_nil.
